@@ -6,7 +6,7 @@ Translated (see SPECS / CLASSES at the end of the file):
   server/middleware.py  TokenBucket (record from __init__, __init__, consume), RateLimiter.process_request,
                         one pass of RateLimiter._cleanup_loop, AccessControl.__init__ (list parsing),
                         AccessControl._is_allowed (py2coq's spec, re-emitted), AccessControl.process_request
-  server/router.py      RouteType (enum), Route (dataclass), Router._matches, Router.route
+  server/router.py      RouteType (enum), Route (dataclass), Router.add_route, Router._matches, Router.route
   server/proxy.py       the relay part of ProxyHandler._handle_async (after the upstream URL is built)
 
 General rules added to py2coq's subset
@@ -40,8 +40,10 @@ General rules added to py2coq's subset
 TRUSTED TABLES (everything else is derived from the AST)
   ANNOT        Python annotation -> type (str, bool, float->Q, `T | None`, list[T], dict[str, T], tuple[..], class names);
                `int` -> the spec's "int" (Q where the value enters float arithmetic: exact embedding; Z otherwise).
-  RAISING      ip_network, ip_address: ValueError or a value (oracle parameters of the generated definitions).
-  EXC_CATCH    which `except` class names catch which raised class (ValueError, KeyError, TimeoutError, ConnectionError).
+  RAISING      ip_network, ip_address: ValueError or a value; re.compile: re.error or a value (oracle parameters of the
+               generated definitions).
+  EXC_CATCH    which `except` class names catch which raised class (ValueError, KeyError, TimeoutError, ConnectionError,
+               re.error).
   KW_CALLS     GeminiResponse(status=, meta=) -> ServerGlue.mk_resp.
   per spec     attrs (what `self.config.x` / `self.x` denote and their types), env_exc_calls (the upstream fetch, with the
                keyword arguments it must be called with), method_oracles (re.Pattern.match), skip (statements that only
@@ -60,6 +62,7 @@ EXC_CATCH = {   # raised class -> the `except` class names that catch it
     "KeyError": ["KeyError", "LookupError", "Exception"],
     "TimeoutError": ["TimeoutError", "OSError", "Exception"],
     "ConnectionError": ["ConnectionError", "OSError", "Exception"],
+    "re.error": ["re.error", "Exception"],
 }
 EXC_CLASSES = {"TimeoutError": "ExTimeoutError", "ConnectionError": "ExConnectionError", "Exception": "ExException"}   # MwGlue.exc_class
 KW_CALLS = {"GeminiResponse": (["status", "meta"], "mk_resp", "resp")}
@@ -125,6 +128,7 @@ def is_time_call(n):
 # ------------------------------------------------------------------ the translator
 class MwFn(Fn):
     def __init__(self, spec, node, ctx):
+        spec.setdefault("types", {})
         super().__init__(spec, node)
         self.ctx = ctx
         self.aliases = {}        # local name -> (dict state variable, key (a parameter name))
@@ -410,7 +414,7 @@ class MwFn(Fn):
         elif isinstance(s, ast.For): exprs.append(s.iter)
         found = []
         def walk(n, conditional):
-            if isinstance(n, ast.Call) and isinstance(n.func, ast.Name) and n.func.id in self.spec.get("raising", {}) and n.func.id not in self.env_locals():
+            if isinstance(n, ast.Call) and self.raising_key(n) is not None:
                 if conditional: bad(n, "raising call under a condition inside an expression")
                 found.append(n)
             if isinstance(n, (ast.IfExp, ast.ListComp, ast.GeneratorExp, ast.Lambda)):
@@ -423,8 +427,13 @@ class MwFn(Fn):
         for x in exprs: walk(x, False)
         return found
 
-    def env_locals(self):
-        return self.assigned_params
+    def raising_key(self, n):
+        f = n.func
+        key = f.id if isinstance(f, ast.Name) else (ast.unparse(f) if isinstance(f, ast.Attribute) and isinstance(f.value, ast.Name) else None)
+        if key is None or key not in self.spec.get("raising", {}): return None
+        base = f.id if isinstance(f, ast.Name) else f.value.id
+        if base in self.assigned_params or base in [p for p, _ in self.spec.get("pyparams", [])]: return None
+        return key
 
     # ---------------- statements
     def state_var(self, target):
@@ -508,7 +517,7 @@ class MwFn(Fn):
             found = self.find_raising(s)
             if found:
                 c = found[0]
-                tgt, ty, cls = self.spec["raising"][c.func.id]
+                tgt, ty, cls = self.spec["raising"][self.raising_key(c)]
                 if c.keywords: bad(c, "keywords in oracle call")
                 v = self.fresh("v")
                 self.env[v] = ty
@@ -522,7 +531,7 @@ class MwFn(Fn):
                         return self_.generic_visit(n)
                 s2 = R().visit(s2)
                 ok = self.block([s2] + rest, k, kc)
-                return "(match %s %s with Some %s => %s | None => %s end)" % (tgt, args, v, ok, self.do_raise(c, cls, "[]"))
+                return "(match %s %s with Some %s => %s | None => %s end)" % (tgt, args, v, ok, self.do_raise(c, cls, "(@nil N)"))
         # ---- environment call that may raise anything: `x = await env(..)` inside try
         if isinstance(s, ast.Assign) and len(s.targets) == 1 and isinstance(s.targets[0], ast.Name):
             val = s.value.value if isinstance(s.value, ast.Await) else s.value
@@ -544,7 +553,7 @@ class MwFn(Fn):
                 if d and isinstance(self.typeof(s.targets[0].value), tuple) and self.typeof(s.targets[0].value)[0] == "dict":
                     self.kill_aliases(d)
                     key = self.expr(s.targets[0].slice)
-                    return "(match ddel %s %s with Some d__ => let %s := d__ in %s | None => %s end)" % (key, d, d, self.block(rest, k, kc), self.do_raise(s, "KeyError", "[]"))
+                    return "(match ddel %s %s with Some d__ => let %s := d__ in %s | None => %s end)" % (key, d, d, self.block(rest, k, kc), self.do_raise(s, "KeyError", "(@nil N)"))
             bad(s, "del form")
         if isinstance(s, ast.Assign) and len(s.targets) == 1:
             t = s.targets[0]
@@ -573,7 +582,7 @@ class MwFn(Fn):
                         self.kill_aliases(d)
                         self.dead_aliases.discard(x)
                         self.aliases[x] = (d, keyn.id)
-                    return "(match dget %s %s with Some %s => %s | None => %s end)" % (self.expr(keyn), self.expr(s.value.value), x, self.block(rest, k, kc), self.do_raise(s, "KeyError", "[]"))
+                    return "(match dget %s %s with Some %s => %s | None => %s end)" % (self.expr(keyn), self.expr(s.value.value), x, self.block(rest, k, kc), self.do_raise(s, "KeyError", "(@nil N)"))
             # x = <effectful call>
             if isinstance(t, ast.Name) and self.effect_call(s.value):
                 return self.emit_effect(s.value, lambda r: self.block([ast.Assign(targets=[t], value=r, lineno=s.lineno)] + rest, k, kc))
@@ -588,6 +597,10 @@ class MwFn(Fn):
                 bad(s, "assignment to an attribute that is not declared state")
             if isinstance(t, ast.Name) and t.id in self.aliases:
                 del self.aliases[t.id]
+            if isinstance(t, ast.Name) and t.id in self.spec.get("types", {}):
+                want = self.spec["types"][t.id]
+                self.env[t.id] = want
+                return "(let %s := %s in %s)" % (t.id, self.coerce(s.value, want), self.block(rest, k, kc))
         if isinstance(s, ast.Expr) and isinstance(s.value, (ast.Call, ast.Await)):
             v = s.value.value if isinstance(s.value, ast.Await) else s.value
             if self.effect_call(v):
@@ -893,6 +906,14 @@ def gen_dataclass(ctx, cspec, tree):
             fields.append((s.target.id, t))
         else: bad(s, "dataclass body")
     ctx.classes[c.name] = dict(fields=fields, tparams=cspec.get("tparams", []))
+    # the generated __init__ of a dataclass: fields in order, defaults that are constants
+    defaults = {}
+    for st in c.body:
+        if isinstance(st, ast.AnnAssign) and st.value is not None:
+            if isinstance(st.value, ast.Constant) and st.value.value is None: defaults[st.target.id] = "None"
+            else: bad(st, "dataclass default")
+    ctx.methods[(c.name, "__init__")] = dict(name="mk_py_" + c.name, params=fields, defaults=defaults, uses_time=False, mutates=False,
+                                             ret=("obj", c.name) + tuple(cspec.get("tparams", [])), tparams=cspec.get("tparams", []))
     return record_text(c.name, cspec.get("tparams", []), fields)
 
 def gen_init_class(ctx, cspec, tree):
@@ -990,6 +1011,11 @@ SPECS = [
     dict(file="server/middleware.py", cls="AccessControl", func="process_request", name="gen_ac_process",
          env=[("ip_address", ("fun", "str", ("opt", "addr"))), ("self_deny_networks", NET), ("self_allow_networks", NET), ("self_default_allow", "bool")],
          attrs={}),
+    dict(file="server/router.py", cls="Router", func="add_route", name="gen_router_add_route", tparams=["REQ", "RX"], may_raise=True,
+         annot={"Callable[[GeminiRequest], GeminiResponse]": ("fun", "REQ", "resp")},
+         env=[("re_compile", ("fun", "str", ("opt", "RX")))], raising={"re.compile": ("re_compile", "RX", "re.error")},
+         state=["self_routes"], types={"compiled_regex": ("opt", "RX")},
+         attrs={"self.routes": ("self_routes", ("list", ROUTE))}),
     dict(file="server/router.py", cls="Router", func="_matches", name="gen_router_matches", key="self._matches", tparams=["REQ", "RX"],
          env=[("regex_match", ("fun", "RX", "str", ("opt", "unit")))], method_oracles={("RX", "match"): ("regex_match", ("opt", "unit"))}, attrs={}),
     dict(file="server/router.py", cls="Router", func="route", name="gen_router_route", tparams=["REQ", "RX"], int="Z",
@@ -1062,3 +1088,5 @@ if __name__ == "__main__":
         main(sys.argv[1] if len(sys.argv) > 1 else os.path.join(os.path.dirname(os.path.dirname(os.path.abspath(__file__))), "coq", "Gen", "MwGen.v"))
     except Untranslatable as e:
         print("UNTRANSLATABLE:", e); sys.exit(2)
+    except Exception as e:      # fail closed: a source shape the translator did not foresee is refused, never guessed at
+        print("UNTRANSLATABLE: internal error %s: %s" % (type(e).__name__, e)); sys.exit(2)
